@@ -244,6 +244,24 @@ def run(ctx):
                     for fl2 in ([], ['EXTMATCH'], ['DOTMATCH'], ['IGNORECASE'], ['FORCEWIN'], ['NEGATE'], ['SPLIT'], ['BRACE']):
                         with ctx.case(label=(gen.ser(toks2), tuple(fl2))):
                             check(ctx, G if path_mode else F, gen.ser(toks2), None, fl2, names, toks2 if not fl2 or fl2 == ['EXTMATCH'] else None)
+    # RAWCHARS escapes that spell `|`, `,`, `{`, `}`: both sides decode first, then expand braces and split
+    raw_texts = ['a\\x7cb', 'a\\174b', '\\x7ba,b\\x7d', 'a{b\\x2cc}', 'x\\N{VERTICAL LINE}y', '@(a\\x7cb)', 'a\\x7c!b', '\\x7bx,y}', '{x\\x2cy}', 'a\\u007cb',
+                 'p\\x7c\\x7cq', '\\x7b1..3\\x7d', 'a\\x5c|b', '[\\x7c]a|b', 'a\\x7c[b', '{a\\x7cb,c}', 'a|\\x7bb,c\\x7d', '!a\\x7cb', '\\x21a|b', 'a\\U0000007cb']
+    raw_names = ['a', 'b', 'a|b', 'a,b', '{a,b}', 'ab', 'ac', 'x', 'y', 'x|y', 'a{b,c}', 'abc', 'a|!b', '!b', '{x,y}', 'x,y', 'p', 'q', 'p||q', '1', '2', '3', '{1..3}',
+                 'a\\', 'a\\|b', '|a', 'a|[b', '[b', 'c', 'a|b,c', '{a|b,c}', '!a', '!a|b', 'a|{b,c}', 'a|b|c', '']
+    for ri, text in enumerate(raw_texts):
+        for fi, fl in enumerate((['RAWCHARS', 'SPLIT'], ['RAWCHARS', 'BRACE'], ['RAWCHARS', 'SPLIT', 'BRACE'], ['RAWCHARS', 'SPLIT', 'EXTMATCH'], ['RAWCHARS'],
+                                 ['RAWCHARS', 'SPLIT', 'NEGATE'], ['RAWCHARS', 'BRACE', 'SPLIT', 'NEGATE', 'EXTMATCH', 'FORCEWIN'], ['SPLIT', 'BRACE'])):
+            idx += 1
+            if not ctx.mine(idx):
+                continue
+            for path_mode in (False, True):
+                flx = [('EXTGLOB' if f == 'EXTMATCH' else f) for f in fl] if path_mode else fl
+                with ctx.case(label=('raw-structure', text, tuple(flx))):
+                    check(ctx, G if path_mode else F, text, None, flx, [n for n in raw_names if n], None)
+                    check(ctx, G if path_mode else F, text.encode('latin-1'), None, flx, [n.encode('latin-1') for n in raw_names if n], None) if '\\N' not in text and '\\u' not in text and '\\U' not in text else None
+                    check(ctx, G if path_mode else F, ['zz', text], 'q*' if 'NEGATE' not in flx else None, flx, [n for n in raw_names if n], None)
+                    ctx.count('rawchars_structure_texts')
     k = 0
     limit = 120 if quick else 10 ** 9
     while k < limit and not ctx.out_of_time():
